@@ -1,5 +1,23 @@
-"""C14 - decided with Engine.tla (see engine.py)."""
-import engine
+"""C14 - decided with Engine.tla (see engine.py); plus, at the HTTP boundary, that the preview flag of each API
+version reaches the backend as DryRun (Router.tla request space, c19.preview_part)."""
+import json
+import engine, c19, common
 LEVEL = engine.LEVEL
-def run(ctx): engine.run_prop(ctx, "C14")
-def replay(ctx, path): engine.replay_prop(ctx, "C14", path)
+def run(ctx):
+    engine.run_prop(ctx, "C14")
+    c19.preview_part(ctx)
+def replay(ctx, path):
+    art = json.load(open(path))
+    if art["replay"].get("kind") == "c19-request":
+        binp = ctx.build("apiconf")
+        cases = ctx.path("cases.ndjson")
+        with open(cases, "w") as f:
+            f.write(json.dumps(art["replay"]["case"]) + "\n")
+        res = ctx.path("results.ndjson")
+        ctx.run([binp, "-mode", "c19", "-in", cases, "-out", res, "-stats", ctx.path("stats.json")], timeout=300)
+        r = common.read_ndjson(res)[0]
+        if r["rw"]["writes"] > 0:
+            ctx.violation(art["signature"], "reached the backend as a real write: %s" % r["rw"]["calls"], art["replay"])
+        ctx.coverage.update({"states": 1, "transitions": 1, "traces_validated_against_impl": 1})
+        return
+    engine.replay_prop(ctx, "C14", path)
